@@ -7,6 +7,7 @@ CONFIG = {
     "required_theorems": [
         "test_reports_real_conflict",
         "round_granted_never_conflict",
+        "round_first_granted",
         "test_misses_no_conflict",
         "test_iff_no_conflict",
         "test_iff_denied",
